@@ -362,4 +362,20 @@ theorem parse_update (d : Dec) (v : Nat) (rest : Bytes) (hv : v < 2 ^ 62) (hfirs
   have h5 : ¬ (v > d.tab.allowedMax) := by omega
   simp only [h1, h2, h3, h4, if_false, hfirst, Bool.not_true, Bool.false_eq_true, false_and, hrd, h5]
 
+/-- non-vacuity of `block_roundtrip`: a fresh pair; a new name (literal, indexed), the same field again (now an index
+into the dynamic table), a static-table hit, a sensitive field -/
+example : ∃ d', (Dec.new 4096).write (encodeAll {}
+      [{ name := strBytes "x-a", value := strBytes "1" }, { name := strBytes "x-a", value := strBytes "1" },
+       { name := strBytes ":method", value := strBytes "GET" }, { name := strBytes "cookie", value := strBytes "s", sensitive := true }]).2
+      = (d', [{ name := strBytes "x-a", value := strBytes "1" }, { name := strBytes "x-a", value := strBytes "1" },
+       { name := strBytes ":method", value := strBytes "GET" }, { name := strBytes "cookie", value := strBytes "s", sensitive := true }], none) ∧
+    d'.tab = withAllowed (encodeAll {}
+      [{ name := strBytes "x-a", value := strBytes "1" }, { name := strBytes "x-a", value := strBytes "1" },
+       { name := strBytes ":method", value := strBytes "GET" }, { name := strBytes "cookie", value := strBytes "s", sensitive := true }]).1.tab 4096 ∧
+    d'.saveBuf = [] ∧ (d'.close).isOk = true :=
+  block_roundtrip {} (Dec.new 4096) _ 4096 rfl rfl ⟨rfl, by decide, by decide⟩ rfl (by
+    intro g hg
+    simp only [List.mem_cons, List.not_mem_nil, or_false] at hg
+    rcases hg with rfl | rfl | rfl | rfl <;> exact ⟨⟨by decide, Or.inl rfl⟩, ⟨by decide, Or.inl rfl⟩⟩)
+
 end Fp.C18
